@@ -223,6 +223,9 @@ def _case(draw, pid, tier):
         "fault": None,
         # which of the two reconcile processes write to stdout (no --output option)
         "out_stdout": [draw(st.integers(0, 3)) == 0, draw(st.integers(0, 3)) == 0],
+        # unit costs given on the command line are multiplied by this (large optimum values:
+        # seven and more significant digits in the printed minimum)
+        "cost_scale": draw(st.sampled_from([1, 1, 1, 1, 1000003, 250])),
         "prior": None,
     }
     if draw(st.integers(0, 3)) == 0:
@@ -314,6 +317,7 @@ COST_RE = re.compile(r"Minimum cost: (\S+)")
 def cost_args(case, costs=None, how=None):
     costs = case["spec"]["costs"] if costs is None else costs
     how = how or case["cost_args"]
+    scale = case.get("cost_scale", 1)
     flags = {"spe": "--cost-spe", "dup": "--cost-dup", "hgt": "--cost-hgt",
              "floss": "--cost-floss", "sloss": "--cost-sloss"}
     default = {"spe": 0, "dup": 1, "hgt": 1, "floss": 1, "sloss": 1}
@@ -325,6 +329,8 @@ def cost_args(case, costs=None, how=None):
         if how == "some" and i % 2:
             continue
         v = costs[k]
+        if v != "inf" and scale != 1:
+            v = v * scale
         args += [flag, "float('inf')" if v == "inf" else str(v)]
         chosen[k] = v
     labelled = case["spec"]["syn"] is not None
@@ -369,6 +375,8 @@ def execute(case, focus=None):
     if fs.short:
         run.probe("short_io")
         run.nontrivial = True
+    if extra and case.get("cost_scale", 1) != 1:
+        run.probe("large_costs")
 
     def reconcile(policy, out_path, order, with_fault):
         argv = ["reconcile"]
@@ -616,7 +624,8 @@ def describe(pid):
                 "extended solvers, multifurcating; ancestors unnamed / all named / partially "
                 "named with O#,S#-looking names / partially named; leaf species explicit or "
                 "inferred from <species>_<id>, optionally lower-cased prefix; optional "
-                "syntenies) + algorithm + cost options + a pipeline of simulated processes on "
+                "syntenies) + algorithm + cost options (small integers, or scaled to seven-digit "
+                "values) + a pipeline of simulated processes on "
                 "one simulated file system: reconcile --solutions all and --solutions any as "
                 "separate processes with different set-iteration seeds (input by file or stdin, "
                 "output to a file or to stdout), optionally after an earlier invocation with "
@@ -643,6 +652,6 @@ def describe(pid):
                             "F3_ENOSPC", "F3_EPIPE", "F3_EIO", "F5_clock_jump", "draw_file",
                             "draw_stdout", "draw_pdf", "partially_named", "unnamed_ancestors",
                             "species_inferred_from_names", "stdin_input", "polytomy_input",
-                            "prefix_checked", "reconcile_to_stdout",
+                            "prefix_checked", "reconcile_to_stdout", "large_costs",
                             "prior_invocation_other_costs"],
     }
